@@ -473,7 +473,7 @@ class Parser:
             ty = {"k": "named", "n": name, "a": args}
         else:
             raise SdsSyntaxError(t, "type")
-        if self.accept("P:?"):
+        if ty["k"] == "named" and self.accept("P:?"):      # only a named type has a nullable form
             ty = dict(ty)
             ty["q"] = True
         return ty
